@@ -116,6 +116,8 @@ def hashagg_traces(events, failed_stmts):
         elif ev in ("CountSet", "CountDec") and e.get("obj") in obj2 and obj2[e["obj"]][1].startswith("remaining"):
             blk, lab = obj2[e["obj"]]
             blk.append(norm(ev, lab, n=e["n"]))
+        elif ev == "Flush" and e.get("kind") == "hash_aggregate" and e.get("op") in cur_of_op:
+            cur_of_op[e["op"]].append(norm("Flush", "finalize", p=e["p"], n=1 if e.get("locked") else 0))
         elif ev == "Pass" and e.get("kind") == "hash_aggregate" and e.get("op") in cur_of_op:
             cur_of_op[e["op"]].append(norm("Pass", e["what"], p=e["p"], c=[e["rn"], e["rdm"], e["rda"], e["rm"]]))
     return [l for blk in blocks for l in blk]
